@@ -19,6 +19,8 @@ def sig_of(rej, scn):
     w, g = at[0], at[1]
     if rej.get("why") != "items":
         return "C02:%s" % rej.get("why")
+    if rej.get("known"):      # the oracle's own diagnosis: nothing differs but an ESC \\ delivered after an empty OSC
+        return "C02:items:" + rej["known"]
     if isinstance(g, dict) and g.get("t") == "esc" and g.get("f") == 92 and not g.get("i") and \
             not (isinstance(w, dict) and w.get("t") == "esc" and w.get("f") == 92):
         return "C02:items:spurious-ESC-backslash" + (":" + at[2] if len(at) > 2 and at[2] else "")
